@@ -212,7 +212,7 @@ class Facts:
         return [fid] + self.closures_of(fid)
 
     def impl_of_fn(self, fn):
-        if fn.parent_kind == "Impl":
+        if fn.parent_kind and fn.parent_kind.startswith("Impl"):
             return self._impl_by_id.get(fn.parent)
         return None
 
